@@ -249,7 +249,12 @@ def opVerify (req : Json) : Except String Json := do
     | .ok md =>
       let out := verify Glob.fnmatch w fuel md keys dir params name
       let after := callerAfter w md keys params
-      pure (Json.mkObj [("load", .str "ok"), ("result", resultJson out.result),
+      -- do the hypotheses of `honest_chain_verifies` hold for this world, and what does the theorem then predict?
+      let honest := match honestCheck Glob.fnmatch w md keys dir params name with
+        | none => Json.null
+        | some pred => Json.mkObj [("result", resultJson pred.result),
+            ("trace", .arr (pred.trace.map (fun c => Json.arr (c.map ofStr).toArray)).toArray)]
+      pure (Json.mkObj [("load", .str "ok"), ("result", resultJson out.result), ("honest", honest),
         ("trace", .arr (out.trace.map (fun c => Json.arr (c.map ofStr).toArray)).toArray),
         ("payload_before", metadataPayloadJson md),
         ("payload_after", metadataPayloadJson after)])
